@@ -286,9 +286,13 @@ def check_rebased(model, rep, rule='R15.9'):
     which the block was collected."""
     f = model.func('matrix:assemble_block_csr')
     ret = [r for r in ast.walk(f.node) if isinstance(r, ast.Return) and isinstance(r.value, ast.Call) and src(r.value.func) == 'assemble_csr']
-    if len(ret) != 1 or len(ret[0].value.args) < 3:
+    if len(ret) != 1:
         raise AnalysisError('assemble_block_csr: the call of the gateway assemble_csr was not found')
-    m = pmatch('numpy.concatenate(L_)', ret[0].value.args[2])
+    call = ret[0].value
+    colarg = call.args[2] if len(call.args) >= 3 else next((k.value for k in call.keywords if k.arg == 'colidx'), None)   # assemble_csr(values, rowptr, colidx, ncols)
+    if colarg is None:
+        raise AnalysisError('assemble_block_csr: the column indices handed to assemble_csr were not found')
+    m = pmatch('numpy.concatenate(L_)', colarg)
     if m is None or not isinstance(m['L_'], ast.Name):
         raise AnalysisError('assemble_block_csr: the column indices handed to assemble_csr are not numpy.concatenate(<list>)')
     lst = m['L_'].id
